@@ -314,7 +314,12 @@ func natDivCase(c *Ctx, u, v []uint64, tag string) {
 	uw, vw := toWords(u), toWords(v)
 	key := func() string { return fmt.Sprintf("div u=%s v=%s %s", wordsKey(u), wordsKey(v), tag) }
 	var q, r []Word
-	pv, _ := protect(func() { q, r = decimal.VerifDecDiv(nil, nil, uw, vw) })
+	// destination buffers: nil, or dirty buffers with spare capacity (a reused receiver / remainder)
+	var zq, zr []Word
+	if natDivDirty {
+		zq, zr = dirtyBuf(len(u)+3), dirtyBuf(len(u)+5)
+	}
+	pv, _ := protect(func() { q, r = decimal.VerifDecDiv(zq, zr, uw, vw) })
 	if pv != nil {
 		c.Fail(key(), fmt.Sprintf("panic: %v", pv))
 		theAdvPool.takeProblems()
@@ -361,6 +366,9 @@ func natDivCase(c *Ctx, u, v []uint64, tag string) {
 		c.Sample(key())
 	}
 }
+
+// natDivDirty selects dirty (non-nil, garbage-filled) quotient/remainder buffers for natDivCase.
+var natDivDirty = false
 
 func firstOr0(x []uint64) uint64 {
 	if len(x) == 0 {
@@ -511,11 +519,19 @@ func natLayers(tier string) []Layer {
 						return
 					}
 					p := refMul(q, v)
-					natDivCase(c, p, v, "r=0")
-					natDivCase(c, refAdd(p, []uint64{1}), v, "r=1")
-					if len(vm1) > 0 {
-						natDivCase(c, refAdd(p, vm1), v, "r=v-1")
+					for _, dirty := range []bool{false, true} {
+						natDivDirty = dirty
+						tg := ""
+						if dirty {
+							tg = "dirty-buffers "
+						}
+						natDivCase(c, p, v, tg+"r=0")
+						natDivCase(c, refAdd(p, []uint64{1}), v, tg+"r=1")
+						if len(vm1) > 0 {
+							natDivCase(c, refAdd(p, vm1), v, tg+"r=v-1")
+						}
 					}
+					natDivDirty = false
 				}
 			},
 		})
@@ -564,9 +580,17 @@ func natLayers(tier string) []Layer {
 						}
 						p := refMul(q, v)
 						tag := fmt.Sprintf("k=%d", t.k)
-						natDivCase(c, p, v, tag+" r=0")
-						natDivCase(c, refAdd(p, []uint64{1}), v, tag+" r=1")
-						natDivCase(c, refAdd(p, vm1), v, tag+" r=v-1")
+						for _, dirty := range []bool{false, true} {
+							natDivDirty = dirty
+							tg := tag
+							if dirty {
+								tg += " dirty-buffers"
+							}
+							natDivCase(c, p, v, tg+" r=0")
+							natDivCase(c, refAdd(p, []uint64{1}), v, tg+" r=1")
+							natDivCase(c, refAdd(p, vm1), v, tg+" r=v-1")
+						}
+						natDivDirty = false
 					}
 				}
 			},
@@ -618,6 +642,22 @@ func natLayers(tier string) []Layer {
 								xd := xo.Build()
 								binSweep(c, judgeValue, []int{opQuo}, xo, vo, xd, vd, precs, modes)
 								binSweep(c, judgeAcc, []int{opQuo}, xo, vo, xd, vd, precs, modes)
+								// long dividend: (q·v)·10^(19k) + r, quotient precision far below the dividend length
+								xl := new(big.Int).Mul(pi, p10(19*3))
+								xl.Add(xl, big.NewInt(r))
+								xlo := mkCoef(false, xl, -5, uint32(ndigits(xl))+1, 0)
+								xld := xlo.Build()
+								binSweep(c, judgeValue, []int{opQuo}, xlo, vo, xld, vd, []uint32{uint32(19 * ql), 5}, modes)
+							}
+							// reused receiver that holds a non-zero value of similar size (dirty quotient buffer)
+							if !c.Skip() {
+								z := fresh(uint32(19*(ql+n)), ToNearestEven)
+								z.Quo(qd, vd)
+								xo := mkCoef(false, pi, qo.V.E10+vo.V.E10, uint32(ndigits(pi))+1, 0)
+								pvv, _ := protect(func() { z.SetPrec(uint(19*ql)).Quo(xo.Build(), vd) })
+								if o := Observe(z); pvv != nil || !o.Val().Equal(qo.V) || o.Acc != 0 {
+									c.Fail(fmt.Sprintf("Quo into a reused receiver n=%d ql=%d w=%d top=%d", n, ql, w, top), fmt.Sprintf("panic=%v got %s acc=%d, want the exact quotient %s", pvv, o.Val().Norm(), o.Acc, qo.V.Norm()))
+								}
 							}
 							poolProblems(c, fmt.Sprintf("public n=%d", n))
 						}
